@@ -3,9 +3,18 @@
 A case is a directory of model files (sub-directories, exact / glob /
 search-path imports, cycles, diamonds, self-imports), a provider, a global
 repository switch, builtin models and a *history* of loads (each step can
-rewrite the files: faults appear and get repaired).  The real textX loads the
-history over one metamodel; the Lean machine `Repo.loadMain`
-(Drivers/Repo.lean) runs the same history.  Observed on both sides: file opens
+rewrite the files: faults appear and get repaired).  A load enters textX through
+one of its entry points (step["kind"]):
+
+  file     mm.model_from_file(path)                       (default)
+  strfile  mm.model_from_str(text, file_name=path)        main text from a string
+  str      mm.model_from_str(text)                        anonymous main model
+  preload  provider.load_models_in_model_repo(repo)       GlobalRepo providers; repo =
+           the metamodel's global repository, or a fresh one without global repository
+
+The real textX loads the history over one metamodel; the Lean machines
+`Repo.loadMain` / `Repo.loadStr` / `Repo.preload` (Drivers/Repo.lean) run the
+same history.  Observed on both sides: file opens
 per load, the repositories (`all_models`, every model's `local_models`, the
 metamodel's global repository) with object identity, every reference target.
 
@@ -54,9 +63,21 @@ def file_path(root, case, i):
     return os.path.abspath(os.path.join(root, f["dir"], f["base"]))
 
 
+STR = "s"  # index of the anonymous main model of a "str" step
+
+
+def step_kind(step):
+    return step.get("kind", "file")
+
+
+def spec_of(step, i):
+    """content description of file i, or of the string of a "str" step (i == STR)"""
+    return step["text"] if i == STR else step["files"][i]
+
+
 def file_text(case, step, i):
-    fs = step["files"][i]
-    lines = [f'import "{imp["pat"]}"' for imp in fs["imports"]]
+    fs = spec_of(step, i)
+    lines = [f'import "{imp["pat"]}"' for imp in fs.get("imports", [])]
     lines.append(f"elem pad{i}")
     lines += [f"elem {n}" for n in fs["defs"]]
     if fs.get("objf"):
@@ -82,10 +103,13 @@ def grepo_patterns(case):
 
 
 def step_imports(case, step, i):
-    """Import statements of file i in this step as (pattern, expected file indices)."""
+    """Import statements of file i (or of the string model, i == STR) in this step
+    as (pattern, expected file indices)."""
     if case["provider"].endswith("grepo"):
         return [{"pat": p["pat"], "expect": [j for j in p["expect"] if not step["files"][j].get("absent")]}
                 for p in grepo_patterns(case)]
+    if i == STR:
+        return []  # a model without file name cannot import relative to its own location
     return step["files"][i]["imports"]
 
 
@@ -135,6 +159,7 @@ def register_providers(mm, case, root, modf_now):
     from textx.scoping import providers as sp
 
     prov = case["provider"]
+    grepo = None
     if prov == "plain_uri":
         mm.register_scope_providers({"*.*": sp.PlainNameImportURI()})
     elif prov == "fqn_uri":
@@ -150,6 +175,7 @@ def register_providers(mm, case, root, modf_now):
         for pat in grepo_patterns(case):
             p.register_models(os.path.join(root, pat["pat"]))
         mm.register_scope_providers({"*.*": p})
+        grepo = p
     else:
         raise ValueError(prov)
 
@@ -164,6 +190,23 @@ def register_providers(mm, case, root, modf_now):
 
     mm.register_obj_processors({"Elem": objproc})
     mm.register_model_processor(modproc)
+    return grepo
+
+
+ANON_MARK = os.path.abspath("-")  # what `modproc` sees for a model without file name
+
+
+def preload_models(mm, grepo, target):
+    """`GlobalRepo.load_models_in_model_repo(target)`; the metamodel of the files is
+    found through the language registry (pattern *.m), registered for the call only."""
+    import textx
+
+    textx.clear_language_registrations()
+    textx.register_language(textx.LanguageDesc("c17lang", pattern="*.m", metamodel=mm))
+    try:
+        return grepo.load_models_in_model_repo(global_model_repo=target)
+    finally:
+        textx.clear_language_registrations()
 
 
 def resolve_stmt(case, root, importer, pat, paths):
@@ -211,7 +254,7 @@ def run_history(case):
         paths = {file_path(root, case, i): i for i in range(len(case["files"]))}
         mm, builtin_models = build_mm(case)
         modf_now = set()
-        register_providers(mm, case, root, modf_now)
+        grepo = register_providers(mm, case, root, modf_now)
         nfiles = len(case["files"])
 
         def fidx(p):
@@ -245,16 +288,34 @@ def run_history(case):
                 else:
                     with builtins.open(p, "w") as fh:
                         fh.write(file_text(case, step, i))
+            kind = step_kind(step)
             modf_now.clear()
             modf_now.update(file_path(root, case, i) for i in range(nfiles) if step["files"][i].get("modf"))
+            if kind == "str" and step["text"].get("modf"):
+                modf_now.add(ANON_MARK)
             stmts = [[resolve_stmt(case, root, i, imp["pat"], paths) for imp in step_imports(case, step, i)]
                      for i in range(nfiles)]
             mm_before = dump_dict(mm._tx_model_repository.all_models) if case["glob"] else None
-            del opens[:]
             o = {"stmts": stmts, "mm_before": mm_before}
+            if kind in ("str", "preload"):
+                # the load_model calls of the string model / of the preload: the registered patterns
+                o["stmts_x"] = [resolve_stmt(case, root, None, imp["pat"], paths)
+                                for imp in step_imports(case, step, STR)]
+            del opens[:]
             model = None
+            repo_out = None
             try:
-                model = mm.model_from_file(file_path(root, case, step["main"]))
+                if kind == "file":
+                    model = mm.model_from_file(file_path(root, case, step["main"]))
+                elif kind == "strfile":
+                    model = mm.model_from_str(file_text(case, step, step["main"]),
+                                              file_name=file_path(root, case, step["main"]))
+                elif kind == "str":
+                    model = mm.model_from_str(file_text(case, step, STR))
+                elif kind == "preload":
+                    repo_out = preload_models(mm, grepo, mm._tx_model_repository if case["glob"] else None)
+                else:
+                    raise ValueError(kind)
                 o["res"] = "ok"
             except TextXSyntaxError:
                 o["res"] = "syntax"
@@ -277,6 +338,9 @@ def run_history(case):
                 o["ret"] = reg.num(model)
                 repo = getattr(model, "_tx_model_repository", None)
                 o["all"] = dump_dict(repo.all_models) if repo is not None else []
+            elif repo_out is not None:
+                o["ret"] = None
+                o["all"] = dump_dict(repo_out.all_models)
             o["mm"] = dump_dict(mm._tx_model_repository.all_models) if case["glob"] else None
             # closure of everything reachable from the known models
             k = 0
@@ -340,7 +404,8 @@ def canonical(raw_steps):
         locs = {i: (f, d) for i, f, d in s["locs"]}
         tgts = {i: t for i, t in s["tgt"]}
         if s["res"] == "ok":
-            n(s["ret"])
+            if s.get("ret") is not None:
+                n(s["ret"])
             for _, j in s.get("all", []):
                 n(j)
         for _, j in (s.get("mm") or []):
@@ -361,7 +426,7 @@ def canonical(raw_steps):
                     order.append(t[1])
         v = {"res": s["res"], "reads": list(s["reads"])}
         if s["res"] == "ok":
-            v["ret"] = n(s["ret"])
+            v["ret"] = n(s["ret"]) if s.get("ret") is not None else None
             v["all"] = [[f, n(j)] for f, j in s.get("all", [])]
         v["mm"] = None if s.get("mm") is None else [[f, n(j)] for f, j in s["mm"]]
         v["locs"] = [[num[i], locs[i][0], [[f, n(j)] for f, j in locs[i][1]]] for i in order if i in locs]
@@ -394,7 +459,7 @@ def active_imports(case, step, i):
     (expected sets from the generator), or None for a statement that finds nothing.
     With the RREL provider the loader is attached to the references, so a file
     without references imports nothing."""
-    if case["provider"] == "rrel" and not eff_refs(step["files"][i]):
+    if case["provider"] == "rrel" and not eff_refs(spec_of(step, i)):
         return []
     out = []
     for imp in step_imports(case, step, i):
@@ -403,12 +468,27 @@ def active_imports(case, step, i):
     return out
 
 
+def load_roots(case, step, cached):
+    """where the load of this step starts: the main file, the string model, or (preload)
+    every file the registered patterns denote; cached files are not loaded"""
+    kind = step_kind(step)
+    if kind == "str":
+        return [STR]
+    if kind == "preload":
+        out = []
+        for st in active_imports_any(case, step, STR):
+            for j in st or []:
+                if j not in cached and j not in out:
+                    out.append(j)
+        return out
+    return [] if step["main"] in cached else [step["main"]]
+
+
 def closure_nc(case, step, cached):
-    """files reachable from main through files that are not cached, not cached themselves"""
-    main = step["main"]
-    if main in cached:
-        return []
-    seen, todo = [main], [main]
+    """models constructed by the load: reachable from its roots through files that are
+    not cached, not cached themselves (the string model of a "str" step is STR)"""
+    seen = list(load_roots(case, step, cached))
+    todo = list(seen)
     while todo:
         i = todo.pop()
         for st in active_imports(case, step, i):
@@ -419,6 +499,14 @@ def closure_nc(case, step, cached):
     return seen
 
 
+def expected_opens(case, step, cached):
+    """files the load has to open: the constructed models whose text comes from a file"""
+    out = [i for i in closure_nc(case, step, cached) if i != STR]
+    if step_kind(step) == "strfile":
+        out = [i for i in out if i != step["main"]]
+    return out
+
+
 def visible_definers(case, step, i, name, file_defs):
     """(self defines?, direct imports defining name, builtin indices defining name)"""
     direct = []
@@ -426,13 +514,14 @@ def visible_definers(case, step, i, name, file_defs):
         for j in st or []:
             if j not in direct:
                 direct.append(j)
-    return (name in file_defs(i), [j for j in direct if name in file_defs(j)],
+    own = name in (step["text"]["defs"] if i == STR else file_defs(i))
+    return (own, [j for j in direct if name in file_defs(j)],
             [k for k, b in enumerate(case["builtin"]) if name in b])
 
 
 def step_has_fault(case, step, files):
     for i in files:
-        fs = step["files"][i]
+        fs = spec_of(step, i)
         if fs.get("syn") or fs.get("objf") or fs.get("modf") or fs.get("badref") or fs.get("absent"):
             return True
         if any(st is None for st in active_imports(case, step, i)):
@@ -450,6 +539,14 @@ class Prop(Check):
         "Repo.C17_identity",
         "Repo.C17_lookup_order",
         "Repo.C17_cached_reload",
+        "Repo.C17_str_name_fresh",
+        "Repo.C17_str_as_file",
+        "Repo.C17_str_terminates",
+        "Repo.C17_str_once",
+        "Repo.C17_str_closure",
+        "Repo.C17_str_identity",
+        "Repo.C17_str_lookup_order",
+        "Repo.C17_preload",
     ]
     DRIVER = "Drivers/Repo.lean"
     QUICK_CASES = 300
@@ -457,20 +554,29 @@ class Prop(Check):
     FAULT_BIAS = 0.25
     RULE = ("directories of <=6 model files in <=3 directories with random import graphs (exact, glob, search-path "
             "imports; cycles, diamonds, self-imports), 6 providers x global repository on/off x builtin models, "
-            "histories of 1..4 loads; non-trivial = some load of the history reads >=3 files and either the import "
-            "graph has a cycle / diamond / self-import or a later load meets cached models")
+            "histories of 1..4 loads, each load through one of the entry points model_from_file / model_from_str with "
+            "file name / model_from_str without file name (anonymous main model) / GlobalRepo.load_models_in_model_repo "
+            "(any of them may be the first load on the still empty shared repository); non-trivial = some load of the "
+            "history reads >=3 files and either the import graph has a cycle / diamond / self-import or a later load "
+            "meets cached models")
     MODELLED = ("hand-modelled: scoping/__init__.py ModelRepository + GlobalModelRepository.load_model / "
                 "update_model_in_repo_based_on_filename / pre_ref_resolution_callback / get_included_models / "
                 "remove_models_from_repositories, providers.py ImportURI.load_models/_load_referenced_models/__call__ "
-                "(lookup order), metamodel.py internal_model_from_file (cache check, callback, processors), model.py "
-                "parse_tree_to_objgraph exception handlers (Repo.loadMain/internal/loadCalls/loadModelWith/lookup); tie X: "
+                "(lookup order), metamodel.py internal_model_from_file (cache check, callback, processors), model_from_str "
+                "(with / without file name), providers.py GlobalRepo.load_models_in_model_repo, model.py "
+                "parse_tree_to_objgraph exception handlers (Repo.loadMain/loadStr/preload/internal/loadCalls/"
+                "loadModelWith/lookup); tie X: "
                 "file opens, all_models/local_models/global repository with identity, reference targets per load of a "
                 "history; not exhibited: glob/os.path (expansions are computed with the same library calls), importAs, "
-                "name lookup inside one model (PlainName/FQN/RREL navigation: only simple names)")
+                "name lookup inside one model (PlainName/FQN/RREL navigation: only simple names), GlobalRepo.add_model, "
+                "pre-load into a repository that is not the metamodel's global one while the metamodel has one, "
+                "failure paths of the pre-load")
     ASSUMPTIONS = [
         "each file name denotes one file (no symlinks / case-insensitive aliases): abspath is the cache key",
         "scope providers are the ImportURI family; user callbacks do not touch the repositories",
         "import closure is taken over the files as they are when read; a cached model is not re-read",
+        "a model given as a string is no file: it is never cached or shared; it must use every file through the "
+        "single shared instance",
     ]
 
     # ---------------------------------------------------------------- gen
@@ -603,6 +709,44 @@ class Prop(Check):
         case["steps"] = steps
         return case
 
+    # how a load enters textX (see module doc): weights per provider family
+    KINDS_GREPO = [("file", 5), ("str", 3), ("strfile", 1), ("preload", 2)]
+    KINDS_URI = [("file", 6), ("strfile", 2), ("str", 1)]
+
+    def gen_text(self, rng, case, step, fault_bias):
+        """the anonymous main model of a "str" step: definitions, references mostly to
+        names visible through the registered patterns / builtin models, sometimes a fault"""
+        text = {"defs": rng.sample(NAMES, rng.weighted([(0, 2), (1, 3), (2, 2)])), "refs": []}
+        vis = set(text["defs"])
+        for st in active_imports_any(case, {"files": step["files"], "text": text}, STR):
+            for j in st or []:
+                vis |= set(step["files"][j]["defs"])
+        for b in case["builtin"]:
+            vis |= set(b)
+        vis = sorted(vis)
+        for _ in range(rng.weighted([(0, 1), (1, 3), (2, 3), (3, 2)])):
+            text["refs"].append(rng.choice(vis) if vis and not rng.chance(0.04) else rng.choice(NAMES))
+        if rng.chance(fault_bias / 2):
+            text[rng.weighted([("syn", 2), ("badref", 3), ("objf", 3), ("modf", 3)])] = True
+        return text
+
+    def add_load_kinds(self, rng, case, fault_bias):
+        """every entry point that starts a load on the shared repositories, at every
+        position of the history (in particular as the first load on an empty repository)"""
+        grepo = case["provider"].endswith("grepo")
+        for step in case["steps"]:
+            kind = rng.weighted(self.KINDS_GREPO if grepo else self.KINDS_URI)
+            if kind == "file":
+                continue
+            step["kind"] = kind
+            if kind == "str":
+                step["text"] = self.gen_text(rng, case, step, fault_bias)
+            elif kind == "preload":
+                # the explicit pre-load is exercised without faults (its failure paths belong to C18)
+                step["files"] = [{k: v for k, v in f.items() if k not in ("syn", "badref", "objf", "modf", "absent")}
+                                 for f in step["files"]]
+        return case
+
     def gen(self, rng, n, tier):
         if tier == "thorough":
             # complete: every import graph over <=3 files (self-imports included)
@@ -613,8 +757,23 @@ class Prop(Check):
                     yield {"provider": prov, "glob": glob, "builtin": [], "files": graph_files(len(g)),
                            "exhaustive": True,
                            "steps": [{"main": 0, "files": tab}, {"main": 0, "files": tab}, {"main": last, "files": tab}]}
+            # complete: every sequence of <=3 entry points on a two-file cycle behind a GlobalRepo provider
+            import itertools
+            tab = [{"imports": [], "defs": [NAMES[i]], "refs": [NAMES[i], NAMES[1 - i]]} for i in range(2)]
+            entries = [("file", 0), ("file", 1), ("strfile", 0), ("str", None), ("preload", None)]
+            for glob in (True, False):
+                for ln in (1, 2, 3):
+                    for seq in itertools.product(entries, repeat=ln):
+                        steps = []
+                        for kind, main in seq:
+                            st = {"main": main or 0, "files": tab, "kind": kind}
+                            if kind == "str":
+                                st["text"] = {"defs": [NAMES[2]], "refs": [NAMES[0], NAMES[1], NAMES[2]]}
+                            steps.append(st)
+                        yield {"provider": "plain_grepo", "glob": glob, "builtin": [], "files": graph_files(2),
+                               "patterns": [{"pat": "*.m", "expect": [0, 1]}], "exhaustive": True, "steps": steps}
         for _ in range(n):
-            yield self.gen_case(rng, self.FAULT_BIAS)
+            yield self.add_load_kinds(rng, self.gen_case(rng, self.FAULT_BIAS), self.FAULT_BIAS)
 
     # ---------------------------------------------------------------- impl / model
     def impl(self, case):
@@ -631,17 +790,46 @@ class Prop(Check):
                 files.append({"stmts": stm, "defs": [name_id(x) for x in fs["defs"]],
                               "refs": [name_id(x) for x in eff_refs(fs)],
                               "syn": bool(fs.get("syn")), "objf": bool(fs.get("objf")), "modf": bool(fs.get("modf"))})
-            steps.append({"main": step["main"], "files": files})
+            kind = step_kind(step)
+            req = {"kind": {"strfile": "file"}.get(kind, kind), "main": step["main"], "files": files}
+            if kind in ("str", "preload"):
+                if any(j == -1 for e in o["stmts_x"] for j in e):
+                    return None
+                req["calls"] = o["stmts_x"]
+            if kind == "str":
+                t = step["text"]
+                req["text"] = {"stmts": o["stmts_x"], "defs": [name_id(x) for x in t["defs"]],
+                               "refs": [name_id(x) for x in eff_refs(t)], "syn": bool(t.get("syn")),
+                               "objf": bool(t.get("objf")), "modf": bool(t.get("modf"))}
+            steps.append(req)
         return {"op": "history", "glob": case["glob"], "perRef": case["provider"] == "rrel",
                 "builtins": [[name_id(x) for x in b] for b in case["builtin"]], "steps": steps}
 
     def model_view(self, case, out):
+        """the model numbers the text sources: files 0..n-1, then `anonymous{k}` = n+k for
+        models given as a string; its read log holds every text parsed, the implementation's
+        only the files opened (a string is parsed without an open)"""
+        n = len(case["files"])
+
+        def key(f):
+            return f if f < n else f"anonymous{f - n}"
+
+        def dct(d):
+            return [[key(f), j] for f, j in d]
+
         raw = []
-        for s in out["steps"]:
-            raw.append({"res": s["res"], "reads": s["reads"], "ret": s["ret"],
-                        "all": s["all"] if s["res"] == "ok" else [],
-                        "mm": s["all"] if case["glob"] else None,
-                        "locs": s["locs"], "tgt": s["tgt"]})
+        for step, s in zip(case["steps"], out["steps"]):
+            kind = step_kind(step)
+            reads = [f for f in s["reads"] if f < n]
+            if kind == "strfile" and step["main"] in reads:
+                reads.remove(step["main"])
+            # a model without file name gets its repository in `ImportURI.load_models`; a loader attached to
+            # the references (RREL) never runs for a model without references: such a model sees no dict
+            no_repo = kind == "str" and case["provider"] == "rrel" and not eff_refs(step["text"])
+            raw.append({"res": s["res"], "reads": reads, "ret": None if kind == "preload" else s["ret"],
+                        "all": dct(s["all"]) if s["res"] == "ok" and not no_repo else [],
+                        "mm": dct(s["all"]) if case["glob"] else None,
+                        "locs": [[i, f if f < n else "str", dct(d)] for i, f, d in s["locs"]], "tgt": s["tgt"]})
         return canonical(raw)
 
     def compare(self, case, obs, out):
@@ -716,22 +904,40 @@ class Prop(Check):
             c = copy.deepcopy(case)
             c["builtin"] = []
             yield c
+        for k, s in enumerate(case["steps"]):
+            if step_kind(s) in ("strfile", "str", "preload"):
+                c = copy.deepcopy(case)
+                c["steps"][k].pop("kind")
+                c["steps"][k].pop("text", None)
+                yield c
+            if step_kind(s) == "str":
+                for what in ("refs", "defs"):
+                    if s["text"][what]:
+                        c = copy.deepcopy(case)
+                        c["steps"][k]["text"][what] = []
+                        yield c
 
     def sample_view(self, case, obs):
         return {"case": {"provider": case["provider"], "glob": case["glob"], "files": case["files"],
-                         "steps": [{"main": s["main"]} for s in case["steps"]]},
+                         "steps": [{"main": s["main"], "kind": step_kind(s)} for s in case["steps"]]},
                 "impl": [{"res": s["res"], "reads": s["reads"]} for s in obs.get("steps", [])] if isinstance(obs, dict) else obs}
 
     def extra_search(self, rng, tier, broken):
         return list(self.gen(rng, 800 if tier == "quick" else 6000, tier))
 
     def extra_evidence(self, cases, obs, outs):
-        dist = {"providers": {}, "glob": 0, "steps": 0, "ok": 0, "fail": {}, "reads": 0, "cached_hits": 0}
+        dist = {"providers": {}, "glob": 0, "steps": 0, "ok": 0, "fail": {}, "reads": 0, "cached_hits": 0,
+                "kinds": {}, "first_kind_glob": {}}
         for c, o in zip(cases, obs):
             if not isinstance(o, dict) or "steps" not in o:
                 continue
             dist["providers"][c["provider"]] = dist["providers"].get(c["provider"], 0) + 1
             dist["glob"] += 1 if c["glob"] else 0
+            for st in c["steps"]:
+                dist["kinds"][step_kind(st)] = dist["kinds"].get(step_kind(st), 0) + 1
+            if c["glob"] and c["steps"]:
+                k0 = step_kind(c["steps"][0])
+                dist["first_kind_glob"][k0] = dist["first_kind_glob"].get(k0, 0) + 1
             for s in o["steps"]:
                 dist["steps"] += 1
                 dist["reads"] += len(s["reads"])
@@ -807,15 +1013,19 @@ def oracle_c17(case, obs):
             return f"step {k}: files {again} are cached in the global repository but were opened again"
         if s["res"] != "ok":
             continue
-        expect = closure_nc(case, step, cached)
-        if sorted(reads) != sorted(expect):
-            return (f"step {k}: successful load opened {sorted(reads)} but the import closure of file {step['main']} "
-                    f"(minus cached {sorted(cached)}) is {sorted(expect)}")
+        kind = step_kind(step)
+        what = {"file": f"file {step['main']}", "strfile": f"file {step['main']} (text given as a string)",
+                "str": "the string model", "preload": "the registered patterns"}[kind]
+        expect = expected_opens(case, step, cached)
+        if sorted(reads, key=str) != sorted(expect, key=str):
+            return (f"step {k}: successful load opened {sorted(reads, key=str)} but the import closure of {what} "
+                    f"(minus cached {sorted(cached, key=str)}) is {sorted(expect)}")
+        constructed = closure_nc(case, step, cached)
         # identity: one instance per file among everything reachable from the result
         locs = {i: (f, d) for i, f, d in s["locs"]}
         tgts = {i: t for i, t in s["tgt"]}
         loaded = {i: l for i, l in s["loaded"]}
-        reach, todo = [], [s["ret"]] + [j for _, j in s["all"]]
+        reach, todo = [], ([s["ret"]] if s["ret"] is not None else []) + [j for _, j in s["all"]]
         while todo:
             i = todo.pop()
             if i in reach:
@@ -826,7 +1036,8 @@ def oracle_c17(case, obs):
             todo += [t[1] for t in tgts.get(i, []) if t[0] in ("e", "foreign")]
         by_file = {}
         for i in reach:
-            by_file.setdefault(locs[i][0], set()).add(i)
+            if locs[i][0] != "str":  # a model given as a string is no file: every such load makes a new one
+                by_file.setdefault(locs[i][0], set()).add(i)
         multi = {f: sorted(v) for f, v in by_file.items() if len(v) > 1}
         if multi:
             return f"step {k}: more than one model instance for a file is reachable from the loaded model: {multi}"
@@ -836,13 +1047,18 @@ def oracle_c17(case, obs):
             for f, i in inst_of.items():
                 if mm.get(f) != i:
                     return f"step {k}: file {f} is used as instance {i} but the global repository holds {mm.get(f)}"
-            if step["main"] in cached:
+            if kind in ("file", "strfile") and step["main"] in cached:
                 before = dict((f, j) for f, j in s["mm_before"])
                 if s["ret"] != before[step["main"]]:
                     return f"step {k}: repeated load of file {step['main']} did not return the cached model"
         for f, j in s["all"]:
-            if locs[j][0] != f:
+            if locs[j][0] != ("str" if isinstance(f, str) and f.startswith("anonymous") else f):
                 return f"step {k}: all_models maps file {f} to a model of file {locs[j][0]}"
+        if kind == "preload":
+            have = {f for f, _ in s["all"]}
+            lost = [j for st in active_imports_any(case, step, STR) for j in st or [] if j not in have]
+            if lost:
+                return f"step {k}: files {sorted(set(lost))} match a registered pattern but are not in the repository"
         for i in reach:
             for f, j in locs[i][1]:
                 if locs[j][0] != f:
@@ -850,9 +1066,11 @@ def oracle_c17(case, obs):
         # lookup order for the models constructed in this load
         for i in reach:
             f = locs[i][0]
-            if f not in reads or not isinstance(f, int):
+            if kind == "str" and i == s["ret"]:
+                f = STR
+            if f not in constructed:
                 continue
-            fs = step["files"][f]
+            fs = spec_of(step, f)
             names = eff_refs(fs)
             got = tgts.get(i, [])
             if len(got) != len(names):
@@ -887,6 +1105,9 @@ def step_defs_at_load(case, obs, k, j):
     """definitions of file j as held by the instance used at step k: the content
     at the most recent step in which j was read (a cached model keeps old content)"""
     for q in range(k, -1, -1):
-        if j in obs["steps"][q]["reads"] and obs["steps"][q]["res"] == "ok":
-            return case["steps"][q]["files"][j]["defs"]
+        sq, cq = obs["steps"][q], case["steps"][q]
+        from_str = (step_kind(cq) == "strfile" and cq["main"] == j
+                    and j not in {f for f, _ in (sq["mm_before"] or [])})
+        if (j in sq["reads"] or from_str) and sq["res"] == "ok":
+            return cq["files"][j]["defs"]
     return case["steps"][k]["files"][j]["defs"]
